@@ -148,6 +148,9 @@ def core_cases():
     # two waiters; the first one's caller goes away in the very loop iteration in which A's result is delivered
     out.append({'kind': 'async-thread', 'capacity': 1, 'workers': 1,
                 'callers': [dict(A), dict(W, cancel_on_done_of=0), dict(W, start=10)]})
+    # a worker raising StopIteration / the builtin TimeoutError: its own request fails with it, at once
+    for kind in ('async-thread', 'sync-thread'):
+        out.append({'kind': kind, 'capacity': 2, 'workers': 1, 'callers': [dict(A, dur=5, fail=8), dict(A, dur=5, fail=9, start=5), dict(W, start=10)]})
     # ... or its patience runs out at about that time
     out.append({'kind': 'async-thread', 'capacity': 1, 'workers': 1,
                 'callers': [dict(A), dict(W, timeout=0.0405), dict(W, start=10)]})
@@ -163,15 +166,22 @@ def gen_case(rng, idx):
     cap = rng.choice([1, 1, 2, 3])
     ncall = rng.choice([2, 4, 6, 9])
     callers = []
+    if rng.random() < 0.15:
+        # a burst of callers whose deadlines fall around the moment their results arrive
+        return {'kind': kind, 'capacity': 8, 'workers': 8, 'callers': [
+            {'start': 0, 'dur': 5, 'fail': 0, 'timeout': 0.005 + 0.00005 * i, 'bp': False, 'cancel_after': None} for i in range(8)] * 3}
     for i in range(ncall):
         callers.append({
             'start': rng.choice([0, 0, 5, 20, 45]),                     # ms
             'dur': rng.choice([5, 15, 40]),
-            'fail': rng.choice([0, 0, 0, 0, 7]),
-            'timeout': rng.choice([0.02, 0.06, 5.0, 5.0]),
+            'fail': rng.choice([0, 0, 0, 0, 7, 7, 8, 9]),
+            'timeout': rng.choice([0.02, 0.06, 5.0, 5.0, 'at-result']),
             'bp': rng.random() < 0.4,
             'cancel_after': rng.choice([None, None, None, 3, 12, 30]) if kind.startswith('async') else None,
         })
+    for s_ in callers:
+        if s_['timeout'] == 'at-result':
+            s_['timeout'] = s_['dur'] / 1000 + rng.choice([0, 0.0002, 0.001])
     return {'kind': kind, 'capacity': cap, 'workers': rng.choice([1, 1, 2]), 'callers': callers}
 
 
@@ -185,9 +195,18 @@ def _servlet(c):
 
 def _classify(e):
     from mpservice.mpserver import ServerBacklogFull
+    from mpservice.mpserver import TimeoutError as ServerTimeoutError
     from harness.backlog_workers import StageErr
     if isinstance(e, ServerBacklogFull):
         return ['rejected', [round(a, 3) if isinstance(a, float) else a for a in e.args]]
+    if isinstance(e, ServerTimeoutError):
+        return ['timeout']
+    if isinstance(e, TimeoutError) and e.args == (9,):
+        return ['failed', 9]                 # the worker's own (builtin) TimeoutError
+    if isinstance(e, StopIteration) and e.args == (8,):
+        return ['failed', 8]
+    if isinstance(e, RuntimeError) and isinstance(e.__cause__, StopIteration) and e.__cause__.args == (8,):
+        return ['failed', 8]                 # an asyncio future cannot carry StopIteration: delivered chained to a RuntimeError
     if isinstance(e, TimeoutError):
         return ['timeout']
     if isinstance(e, StageErr):
@@ -206,6 +225,8 @@ def run_async(c):
         server._verif_ledger_log = log
         server._verif_gate_log = glog
         loop = asyncio.get_running_loop()
+        loop_errors = res.setdefault('loop_errors', [])
+        loop.set_exception_handler(lambda lp, ctx: loop_errors.append(f"{ctx.get('message')}: {ctx.get('exception')!r}"[:200]))
         outs = [None] * len(c['callers'])
         async with server:
             async def caller(i, s):
@@ -363,6 +384,8 @@ def oracle(c, o):
     if n_acc_main < need_acc or n_acc_main > len(c['callers']) - nrej:
         return (f'{tag}: {n_acc_main} requests entered the ledger; {need_acc} callers were answered or timed out and {nrej} of '
                 f"{len(c['callers'])} were rejected (a rejected request must leave no trace)")
+    if o.get('loop_errors'):
+        return f"{tag}: {len(o['loop_errors'])} error(s) reached the event loop's exception handler, e.g. {o['loop_errors'][0]}"
     if o['idle_backlog']:
         return f"{tag}: backlog still {o['idle_backlog']} 10 s after every caller had returned (slots not given back)"
     if o['epilogue'] != [['ok', 1001], ['ok', 1011], ['ok', 1021]]:
